@@ -102,6 +102,54 @@ def lake_build(targets, timeout=3000):
     return p.returncode == 0, p.stdout
 
 
+def module_closure(mods):
+    """the modules of this library that `mods` import, transitively (from the `import` lines of the sources)"""
+    seen, todo = [], list(mods)
+    while todo:
+        m = todo.pop()
+        if m in seen:
+            continue
+        f = os.path.join(LEAN_DIR, m.replace('.', '/') + '.lean')
+        if not os.path.exists(f):
+            continue
+        seen.append(m)
+        for mm in re.finditer(r'(?m)^\s*import\s+(JugModel[\w\.]*)', open(f).read()):
+            todo.append(mm.group(1))
+    return sorted(seen)
+
+
+def build_and_recheck(targets, timeout=3000):
+    """thorough tier: `lake build` and, under the same lock (no other check can rebuild a shared module in between), an independent
+    replay of the compiled .olean files of `mod` and of every library module it imports by the toolchain's leanchecker.
+    leanchecker takes a module *prefix* and replays every .olean below it, so a private search-path root with links to exactly
+    the closure is put in front of the library's own."""
+    with _lock_file() as lf:
+        fcntl.flock(lf, fcntl.LOCK_EX)
+        try:
+            p = subprocess.run(['lake', 'build'] + list(targets), cwd=LEAN_DIR, stdout=subprocess.PIPE, stderr=subprocess.STDOUT, text=True, timeout=timeout)
+            if p.returncode != 0:
+                return False, p.stdout, None, ''
+            mods = module_closure([t for t in targets if t.startswith('JugModel.')])
+            root = tempfile.mkdtemp(prefix='jugverif-lc-')
+            try:
+                lib = os.path.join(LEAN_DIR, '.lake', 'build', 'lib', 'lean')
+                for m in mods:
+                    rel = m.replace('.', '/') + '.olean'
+                    os.makedirs(os.path.dirname(os.path.join(root, rel)), exist_ok=True)
+                    shutil.copy(os.path.join(lib, rel), os.path.join(root, rel))
+                env = dict(os.environ)
+                lp = subprocess.run(['lake', 'env', 'printenv', 'LEAN_PATH'], cwd=LEAN_DIR, stdout=subprocess.PIPE, text=True).stdout.strip()
+                env['LEAN_PATH'] = root + os.pathsep + os.pathsep.join(x for x in lp.split(os.pathsep) if os.path.abspath(x) != os.path.abspath(lib))
+                q = subprocess.run(['leanchecker', 'JugModel'], cwd=LEAN_DIR, env=env, stdout=subprocess.PIPE, stderr=subprocess.STDOUT, text=True, timeout=timeout)
+            finally:
+                shutil.rmtree(root, ignore_errors=True)
+            return True, p.stdout, q.returncode == 0, '%d modules: %s' % (len(mods), q.stdout[-300:])
+        except subprocess.TimeoutExpired as e:
+            raise InfraError('lake build / leanchecker timed out: %s' % e)
+        finally:
+            fcntl.flock(lf, fcntl.LOCK_UN)
+
+
 def failing_decls(log):
     """names of the modules / theorems lake reports errors for"""
     out = []
@@ -297,7 +345,11 @@ class Run:
     def lean(self, targets, audit=True, theorems_expected=()):
         """build the property's theorem module (+driver) and audit it. Records obligations."""
         self.checker_cmd = 'cd lean && lake build ' + ' '.join(targets) + ' && lake env lean JugModel/Audit/%s.lean' % self.prop
-        ok, log = lake_build(targets)
+        lc = None
+        if self.tier == 'thorough':
+            ok, log, lc, lcout = build_and_recheck(targets)
+        else:
+            ok, log = lake_build(targets)
         self.build_log = log
         if not ok:
             locs = failing_decls(log)
@@ -329,6 +381,9 @@ class Run:
             for p in problems:
                 if 'non-standard' not in p:
                     self.obligation('audit', False, p)
+        if lc is not None:
+            self.obligation('leanchecker replays the compiled .olean files of the theorem modules of %s and their imports (independent kernel re-check)' % self.prop, lc, lcout)
+            self.checker_cmd += ' && leanchecker <the built theorem modules and their imports>'
         return True
 
     # -- finishing
